@@ -15,7 +15,7 @@
    analysed packages are assumed not to take broker locks (the translator lists every such call
    made under a lock in the evidence); lock instances are abstracted to classes (owner type .
    mutex field), with one declared refinement (the root particle of the topic index). *)
-From Coq Require Import List NArith.
+From Coq Require Import List NArith String.
 From MV Require Import Base.Val Conc.Locks Conc.LocksProofs Findings.FixedC32.
 Import ListNotations.
 Open Scope N_scope.
@@ -29,19 +29,23 @@ Proof. exact discipline_sound. Qed.
 
 (* Table level (the statement of the design): acyclic lock order + no re-entrant acquisition =>
    for every set of goroutines conforming to the table and every schedule, no deadlock. *)
-Theorem C32_discipline_sound : forall (cl : lock -> cls) (tbl : lock_table) (A : fname -> list cls),
+(* [conforms cl tbl unb [(f, [])] es]: the goroutine started at f performs the events es, every
+   acquisition and call happens at a site the table lists, every activation releases what it
+   acquired before it exits, and no function of [unb] (the functions with a path that leaves them
+   holding a lock) is entered. *)
+Theorem C32_discipline_sound : forall (cl : lock -> cls) (tbl : lock_table) (unb : list fname) (A : fname -> list cls),
   closed tbl A -> acyclic (lock_order tbl A) -> no_reentrant tbl A ->
   forall gs : list (fname * list ev),
-    (forall f es, In (f, es) gs -> conforms cl tbl [(f, [])] es = true) ->
+    (forall f es, In (f, es) gs -> conforms cl tbl unb [(f, [])] es = true) ->
     forall sched : list nat, ~ deadlocked (run sched (map (fun g => thread_of (snd g)) gs)).
 Proof. exact table_discipline_sound. Qed.
 
 (* ... and no goroutine blocks forever: every schedule prefix can be extended to a schedule after
    which every goroutine has finished (so no subset of goroutines is stuck either). *)
-Theorem C32_all_goroutines_can_finish : forall (cl : lock -> cls) (tbl : lock_table) (A : fname -> list cls),
+Theorem C32_all_goroutines_can_finish : forall (cl : lock -> cls) (tbl : lock_table) (unb : list fname) (A : fname -> list cls),
   closed tbl A -> acyclic (lock_order tbl A) -> no_reentrant tbl A ->
   forall gs : list (fname * list ev),
-    (forall f es, In (f, es) gs -> conforms cl tbl [(f, [])] es = true) ->
+    (forall f es, In (f, es) gs -> conforms cl tbl unb [(f, [])] es = true) ->
     forall sched, exists sched', all_done (run (sched ++ sched') (map (fun g => thread_of (snd g)) gs)).
 Proof. exact table_discipline_completes. Qed.
 
@@ -50,14 +54,17 @@ Proof. exact table_discipline_completes. Qed.
 Theorem C32_acyclic_means_no_cycle : forall g, acyclic g -> forall a, ~ path g a a.
 Proof. exact numbering_no_cycle. Qed.
 
-(* The boolean checker evaluated on the generated table is sound for the hypotheses above. *)
-Theorem C32_checker_sound : forall tbl, lock_discipline_ok tbl = true ->
+(* The boolean checker evaluated on the generated table is sound for the hypotheses above; its first
+   conjunct (every function releases on every path what it acquired: no function is unbalanced)
+   makes the restriction of [conforms] to balanced functions vacuous for an accepted table. *)
+Theorem C32_checker_sound : forall names unb tbl, lock_discipline_ok_full names unb tbl = true ->
+  (forall g, existsb (N.eqb g) unb = false) /\
   forall (cl : lock -> cls) (gs : list (fname * list ev)),
-    (forall f es, In (f, es) gs -> conforms cl tbl [(f, [])] es = true) ->
+    (forall f es, In (f, es) gs -> conforms cl tbl unb [(f, [])] es = true) ->
     forall sched,
       ~ deadlocked (run sched (map (fun g => thread_of (snd g)) gs)) /\
       exists sched', all_done (run (sched ++ sched') (map (fun g => thread_of (snd g)) gs)).
-Proof. exact checked_table_sound. Qed.
+Proof. exact checked_table_sound_full. Qed.
 
 (* non-vacuity: a table with genuine nesting (function 0 holds class 0 in write mode and calls 1,
    which read-locks class 1) is accepted, has conforming executions that really nest, and two such
@@ -72,8 +79,8 @@ Definition ex_g2 : list ev := [EAcq 12 W; ERel 12 W].
 
 Example C32_nonvacuous :
   lock_discipline_ok ex_table = true /\
-  conforms ex_cl ex_table [(0, [])] ex_g0 = true /\
-  conforms ex_cl ex_table [(2, [])] ex_g2 = true /\
+  conforms ex_cl ex_table [] [(0, [])] ex_g0 = true /\
+  conforms ex_cl ex_table [] [(2, [])] ex_g2 = true /\
   ops_of ex_g0 = [Acq 3 W; Acq 12 R; Rel 12 R; Rel 3 W] /\
   (* an execution with real contention: g0 takes 3, the writer announces on 12 and obtains it,
      g0 waits for 12, the writer releases, g0 proceeds *)
@@ -84,12 +91,24 @@ Proof. vm_compute. repeat split. Qed.
 (* the repaired defects: the pre-fix shape is rejected and does deadlock *)
 Example C32_prefix_refuted :
   lock_discipline_ok prefix_table = false /\
-  conforms (fun _ => 0) prefix_table [(0, [])] reader_evs = true /\
-  conforms (fun _ => 0) prefix_table [(2, [])] writer_evs = true /\
+  conforms (fun _ => 0) prefix_table [] [(0, [])] reader_evs = true /\
+  conforms (fun _ => 0) prefix_table [] [(2, [])] writer_evs = true /\
   deadlocked (run [0%nat; 1%nat] [thread_of reader_evs; thread_of writer_evs]).
 Proof.
   split; [exact (proj1 prefix_rejected)|]. split; [exact (proj1 prefix_conforms)|].
   split; [exact (proj2 prefix_conforms) | exact prefix_deadlocks].
+Qed.
+
+(* a function that returns on some path without releasing: rejected by the complete check although
+   its nesting is fine; the leaked lock blocks the next goroutine for ever *)
+Example C32_unbalanced_refuted :
+  lock_discipline_ok leak_table = true /\
+  lock_discipline_ok_full [(0, "Client.flushIdle"%string)] [0] leak_table = false /\
+  conforms (fun _ => 0) leak_table [0] [(1, [])] [EEnter 0; EAcq 7 W; EExit] = false /\
+  deadlocked (run [0; 0; 1]%nat [mk_thread [] false [Acq 7 W]; mk_thread [] false [Acq 7 W; Rel 7 W]]).
+Proof.
+  split; [exact (proj1 leak_rejected)|]. split; [exact (proj1 (proj2 leak_rejected))|].
+  split; [vm_compute; reflexivity | exact leak_deadlocks].
 Qed.
 
 Print Assumptions C32_rank_discipline_sound.
